@@ -18,7 +18,37 @@ ASSUMPTIONS = [
 KEYTYPES = [T_INT, T_STR, T_DATE, T_DEC, T_BOOL]
 
 
-def gen_case(rng, allow_null=True):
+UCOLS = [('a', T_INT), ('b', T_INT), ('x', T_INT)]
+
+
+def gen_sub(rng, targets):
+    """A nested SELECT compiled AFTER the outer targets: an IN-subquery over a second table #u in WHERE or HAVING.
+    Its single output is named like an outer target (at whatever position that one has outside), or differently."""
+    urows = [tuple(values.gen_value(rng, int, 0.1) for _ in UCOLS) for _ in range(rng.choice([0, 1, 3, 6, 6]))]
+    outer_names = [t.split(' AS ')[-1] for t in targets]
+
+    def inner():
+        col = rng.choice(['a', 'b', 'x'])
+        alias = rng.choice(['', '', ' AS ' + rng.choice(outer_names), ' AS ' + rng.choice(outer_names), ' AS zz'])
+        shape = rng.randrange(4)
+        if shape == 0:
+            return f'SELECT {col}{alias} FROM #u'
+        if shape == 1:
+            return f'SELECT {col}{alias} FROM #u WHERE x IS NOT NULL'
+        if shape == 2:
+            k = rng.choice(outer_names + ['k'])
+            return f'SELECT {k} FROM (SELECT b AS p, {col} AS {k}, a AS q FROM #u)'
+        return f'SELECT DISTINCT {col}{alias} FROM #u ORDER BY 1'
+    place = rng.choice(['where', 'where', 'where', 'having'])
+    lhs = 'c' if place == 'where' else 'count(*)'
+    conds = [f'{lhs} {rng.choice(["IN", "IN", "NOT IN"])} ({inner()})' for _ in range(rng.choice([1, 1, 2]))]
+    text = rng.choice([' OR ', ' AND ']).join(conds)
+    if place == 'where' and rng.random() < 0.5:
+        text = f'c IS NULL OR {text}'
+    return {'urows': urows, 'place': place, 'cond': text}
+
+
+def gen_case(rng, allow_null=True, sub=False):
     ta, tb = rng.choice(KEYTYPES), rng.choice(KEYTYPES)
     cols = [('a', ta), ('b', tb), ('c', T_INT), ('d', T_DEC)]
     nrows = rng.choice([0, 1, 2, 3, 5, 8, 12])
@@ -41,24 +71,41 @@ def gen_case(rng, allow_null=True):
         for _ in range(rng.randint(1, 3)):
             ks.append(f'{rng.randint(1, len(targets))}{rng.choice(["", " DESC", " ASC"])}')
         order = ' ORDER BY ' + ', '.join(ks)
-    return {'cols': cols, 'rows': rows, 'targets': targets, 'first': first, 'second': second, 'byname': byname, 'order': order}
+    c = {'cols': cols, 'rows': rows, 'targets': targets, 'first': first, 'second': second, 'byname': byname, 'order': order}
+    if sub:
+        c['sub'] = gen_sub(rng, targets)
+        # by name, by position, and mixed
+        c['refs'] = rng.choice([['name', 'name'], ['name', 'name'], ['pos', 'pos'], ['name', 'pos'], ['pos', 'name']])
+        c['byname'] = c['refs'] == ['name', 'name']
+    return c
 
 
 def base_statement(c):
-    return f'SELECT {", ".join(c["targets"])} FROM #t GROUP BY a, b' + c.get('order', '')
+    sub = c.get('sub')
+    where = f' WHERE {sub["cond"]}' if sub and sub['place'] == 'where' else ''
+    having = f' HAVING {sub["cond"]}' if sub and sub['place'] == 'having' else ''
+    return f'SELECT {", ".join(c["targets"])} FROM #t{where} GROUP BY a, b{having}' + c.get('order', '')
+
+
+def pivot_clause(c, refs):
+    ps = [col if how == 'name' else str(c['targets'].index(col) + 1) for col, how in zip((c['first'], c['second']), refs)]
+    return ' PIVOT BY ' + ', '.join(ps)
+
+
+SPELLINGS = [['name', 'name'], ['pos', 'pos'], ['name', 'pos'], ['pos', 'name']]
 
 
 def statement(c):
-    if c['byname']:
-        p = f'{c["first"]}, {c["second"]}'
-    else:
-        p = f'{c["targets"].index(c["first"]) + 1}, {c["targets"].index(c["second"]) + 1}'
-    return base_statement(c) + ' PIVOT BY ' + p
+    refs = c.get('refs') or (['name', 'name'] if c['byname'] else ['pos', 'pos'])
+    return base_statement(c) + pivot_clause(c, refs)
 
 
 def run_impl(c):
     t = impl.make_table('t', [(n, PY[ty]) for n, ty in c['cols']], c['rows'])
-    conn = impl.connection({'t': t})
+    tabs = {'t': t}
+    if c.get('sub'):
+        tabs['u'] = impl.make_table('u', [(n, PY[ty]) for n, ty in UCOLS], [tuple(r) for r in c['sub']['urows']])
+    conn = impl.connection(tabs)
     out = {}
     try:
         cur = conn.execute(base_statement(c))
@@ -75,6 +122,16 @@ def run_impl(c):
         out['rows'] = values.canon_rows(cur.fetchall())
     except Exception as e:  # noqa: BLE001
         out['pivot_error'] = impl.exc_class(e) + ' ' + str(e)[:100]
+    if c.get('sub'):
+        # the property text: "given by name or position" - every spelling of the same two columns is the same query
+        sp = {}
+        for refs in SPELLINGS:
+            try:
+                cur = conn.execute(base_statement(c) + pivot_clause(c, refs))
+                sp['/'.join(refs)] = [[(d.name, d.datatype.__name__) for d in cur.description], values.canon_rows(cur.fetchall())]
+            except Exception as e:  # noqa: BLE001
+                sp['/'.join(refs)] = ['raised', impl.exc_class(e) + ' ' + str(e)[:100]]
+        out['spellings'] = sp
     return out
 
 
@@ -210,7 +267,18 @@ def judge(c, io, m):
         return f'rows {io["rows"]} differ from expected {exp_rows}'
     if not unpivot_ok(c, io):
         return 'un-pivoting the pivoted rows does not reproduce the un-pivoted result'
+    sp = io.get('spellings')
+    if sp:
+        ref = sp['pos/pos']
+        for k, v in sp.items():
+            if _plain(v) != _plain(ref):
+                return f'PIVOT BY by {k} gives {v}, by position gives {ref}: the spellings name the same two columns'
     return None
+
+
+def _plain(x):
+    import json
+    return json.loads(json.dumps(x))
 
 
 def shrink(c):
@@ -276,9 +344,13 @@ def invalid_references():
 def run(tier, rng):
     n = 1200 if tier == 'quick' else 15000
     cases = [gen_case(rng) for _ in range(n)]
+    nsub = 400 if tier == 'quick' else 4000
+    cases += [gen_case(rng, sub=True) for _ in range(nsub)]
     ios, models = evaluate(cases)
     violations, seen = [], set()
-    hist = {'nrows': {}, 'nkeys': {}, 'nother': {}, 'byname': 0, 'null_keys': 0, 'sparse': 0}
+    hist = {'nrows': {}, 'nkeys': {}, 'nother': {}, 'byname': 0, 'null_keys': 0, 'sparse': 0,
+            'with_in_subquery': {'cases': 0, 'place': {}, 'refs': {}, 'subquery_output_named_like_outer_target': 0,
+                                 'same_name_other_position': 0, 'base_rows_nonempty': 0, 'spellings_compared': 0}}
     distinct, nontrivial = set(), 0
     for c, io, m in zip(cases, ios, models):
         key = statement(c) + repr(c['rows'])
@@ -289,6 +361,20 @@ def run(tier, rng):
         hist['nother'][len(c['targets']) - 2] = hist['nother'].get(len(c['targets']) - 2, 0) + 1
         hist['byname'] += c['byname']
         hist['null_keys'] += any(r[0] is None or r[1] is None for r in c['rows'])
+        if c.get('sub'):
+            hs = hist['with_in_subquery']
+            hs['cases'] += 1
+            hs['place'][c['sub']['place']] = hs['place'].get(c['sub']['place'], 0) + 1
+            rk = '/'.join(c['refs'])
+            hs['refs'][rk] = hs['refs'].get(rk, 0) + 1
+            onames = [t.split(' AS ')[-1] for t in c['targets']]
+            import re as _re
+            inner_names = [(_re.findall(r'AS (\w+) FROM #u', q) or _re.findall(r'SELECT (?:DISTINCT )?(\w+) FROM', q) or ['?'])[0]
+                           for q in _re.findall(r'\((SELECT .*?#u[^()]*\)?)\)', c['sub']['cond'])]
+            hs['subquery_output_named_like_outer_target'] += any(nm in onames for nm in inner_names)
+            hs['same_name_other_position'] += any(nm in onames and onames.index(nm) != 0 for nm in inner_names)
+            hs['base_rows_nonempty'] += bool(io.get('base'))
+            hs['spellings_compared'] += len(io.get('spellings', {}))
         if 'base' in io and m:
             nk = (len(m[0]) - 1) // max(1, len(c['targets']) - 2)
             hist['nkeys'][nk] = hist['nkeys'].get(nk, 0) + 1
@@ -315,8 +401,11 @@ def run(tier, rng):
         'evaluations': len(cases) + ninv, 'distinct_nontrivial': nontrivial, 'invalid_reference_cases': ninv,
         'rule': 'random tables (two key columns of any type with 3-value domains, NULL keys in a third of the tables, int/decimal '
                 'value columns, 0-12 rows) x SELECT <a, b, 1-3 aggregates in any order> GROUP BY a, b PIVOT BY (a,b)|(b,a) by name or '
-                'position; the model pivots the implementation\'s un-pivoted result; non-trivial = distinct case with >=2 keys and >=2 pivoted rows',
-        'samples': [statement(c) + ' -- rows ' + repr(c['rows']) for c in cases[:4]],
+                'position; the model pivots the implementation\'s un-pivoted result; non-trivial = distinct case with >=2 keys and >=2 pivoted rows; '
+                'plus the same family with an IN / NOT IN (SELECT ... FROM #u) in WHERE or HAVING (a nested SELECT compiled after the outer '
+                'targets; its output named like an outer target at another position, or differently), PIVOT BY by name, by position and mixed: '
+                'all four spellings must give the same description and rows, and the model\'s pivot of the un-pivoted result',
+        'samples': [statement(c) + ' -- rows ' + repr(c['rows']) for c in cases[:4] + cases[n:n + 3]],
         'traces_validated_against_impl': len(cases), 'histograms': hist,
     }
     return {'coverage': cov, 'violations': violations}
